@@ -195,7 +195,8 @@ func (g *Gen) snippet() string {
 		}},
 		{"vtext", func() string { return Pick(r, []string{`<p v-text="title">old</p>`, `<p v-text="html"></p>`}) }},
 		{"pipes", func() string {
-			return Pick(r, []string{`<p>{{ name | upper }} {{ title | lower }}</p>`, `<p>{{ title | lower | title }}</p>`, `<p>{{ items | len }} {{ missing | default("dflt") }}</p>`, `<p>{{ user | json }}</p>`, `<p>{{ name | trim | escape }} {{ n | string }} {{ num | int }}</p>`, `<p :title="name | upper">{{ html | escape }}</p>`})
+			return Pick(r, []string{`<p>{{ name | upper }} {{ title | lower }}</p>`, `<p>{{ title | lower | title }}</p>`, `<p>{{ items | len }} {{ missing | default("dflt") }}</p>`, `<p>{{ user | json }}</p>`, `<p>{{ name | trim | escape }} {{ n | string }} {{ num | int }}</p>`, `<p :title="name | upper">{{ html | escape }}</p>`,
+				`<pre>{{ user | jsonPretty }}</pre>`, `<p>{{ n | type }} {{ name | type }} {{ items | type }} {{ missing | type }}</p>`, `<p>{{ m | jsonPretty }}</p>`})
 		}},
 		{"funcs", func() string {
 			g.Eng.Funcs = true
@@ -530,5 +531,6 @@ func randomEngine(r *Rand, base EngineSpec) EngineSpec {
 	case 2:
 		base.PathFill = 300
 	}
+	base.Overlay = r.Chance(8)
 	return base
 }
